@@ -15,7 +15,8 @@ RULE = ("every interleaving (quick: all, 2 processes; thorough: 3 processes up t
         "non-trivial = distinct schedules in which at least one filesystem call failed (EEXIST/ENOENT/ESRCH), i.e. processes collided")
 BOUNDS = {"quick": "2 processes: 1 round x {no lock, stale lock}: all interleavings; 2 rounds: preemption bound 3 (no stale) / 2 (stale)",
           "thorough": "2 processes x 2 rounds all interleavings (no stale) / bound 4 (stale); 3 processes bound 3; a process dying in its critical section, bound 3-4"}
-ASSUMPTIONS = ["symlink/readlink/unlink/kill are individually atomic (POSIX); one Python source line between them is not a scheduling point because the code shares no memory between processes",
+ASSUMPTIONS = ["secondary oracle: models/C50_FilesystemLock.tla is checked by TLC and the set of its complete behaviours (filesystem-call logs) is compared in both directions with the set produced by the real code under the scheduler; a mismatch is reported as MODEL-DRIFT, the verdict is always taken on the real code",
+               "symlink/readlink/unlink/kill are individually atomic (POSIX); one Python source line between them is not a scheduling point because the code shares no memory between processes",
                "schedules = complete executions; states/transitions count scheduler steps executed on the real code"]
 MIN = {"quick": {"evaluations": 1000, "nontrivial": 300, "outcomes": 3}}
 
@@ -163,10 +164,37 @@ def shards(tier, seed):
         bound = cfg[4]
         for pre, dev in shard_prefixes(lambda c: run_one(c, *cfg[:4]), 5, bound):
             out.append((cfg, pre, dev))
+    # TLA+ cross-model (models/C50_FilesystemLock.tla): all model traces vs all implementation traces
+    out.append(("tla", False))
+    if tier != "quick":
+        out.append(("tla", True))
     return out
 
 
+def run_tla(stale):
+    from checks import _c50_tla
+    st = Stats()
+    res = _c50_tla.compare(stale)
+    if res is None:
+        st.notes.append("C50: tlc not on PATH, TLA+ cross-model skipped")
+        return st
+    st.count("tla_model_states", res["model_states"])
+    st.count("tla_model_traces", res["model_traces"])
+    st.count("tla_impl_traces", res["impl_traces"])
+    st.count("tla_traces_validated_both_directions", res["model_traces"] if res["agree"] else 0)
+    st.traces += res["model_traces"]
+    if not res["agree"]:
+        # a behaviour-preserving refactoring may change the call sequence: drift is reported, never a violation
+        st.count("tla_model_drift")
+        st.notes.append("MODEL-DRIFT C50 (stale=%s): only in model %r; only in implementation %r; verdicts model %r impl %r" % (
+            stale, res["only_in_model"], res["only_in_impl"], res["verdict_model"], res["verdict_impl"]))
+    st.sample({"tla_cross_model": {k: res[k] for k in ("stale", "model_states", "model_traces", "impl_traces", "agree")}})
+    return st
+
+
 def run_shard(shard, tier, seed):
+    if shard[0] == "tla":
+        return run_tla(shard[1])
     cfg, pre, dev = shard
     cfg = tuple(cfg)
     bound = cfg[4]
